@@ -614,13 +614,13 @@ static int repair(struct snapraid_state* state, int rehash, unsigned pos, unsign
  * For each file, if we are at the last block, closes it,
  * adjust the timestamp, and print the result.
  *
- * This works only if the whole file is processed, including its last block.
- * This doesn't always happen, like with an explicit end block.
+ * This works only if the whole file is processed, including its first and last block.
+ * This doesn't always happen, like with an explicit start or end block.
  *
  * In such case, the check/fix command won't report any information of the
  * files partially checked.
  */
-static int file_post(struct snapraid_state* state, int fix, unsigned i, struct snapraid_handle* handle, unsigned diskmax)
+static int file_post(struct snapraid_state* state, int fix, block_off_t blockstart, unsigned i, struct snapraid_handle* handle, unsigned diskmax)
 {
 	unsigned j;
 	int ret;
@@ -655,6 +655,14 @@ static int file_post(struct snapraid_state* state, int fix, unsigned i, struct s
 		if (!file_block_is_last(file, file_pos)) {
 			/* nothing to do */
 			continue;
+		}
+
+		/* if the file starts before the processed range, like with the -S option, */
+		/* only a part of it was processed, and we cannot report anything about it, */
+		/* like when the range ends before the last block of the file */
+		if (fs_file2par_get(disk, file, 0) < blockstart) {
+			/* nothing to do, but close the file */
+			goto close_and_continue;
 		}
 
 		/* if the file is excluded, we have nothing to adjust as the file is never written */
@@ -1467,7 +1475,7 @@ static int state_check_process(struct snapraid_state* state, int fix, struct sna
 		}
 
 		/* post process the files */
-		ret = file_post(state, fix, i, handle, diskmax);
+		ret = file_post(state, fix, blockstart, i, handle, diskmax);
 		if (ret == -1) {
 			/* LCOV_EXCL_START */
 			log_fatal("Stopping at block %u\n", i);
